@@ -172,7 +172,7 @@ class Check:
             # directly which declarations exist
             self._audit_partial(module, theorems)
             return False
-        self._audit(module, theorems)
+        self._audit(module, theorems, extra_targets)
         return not self.failed_obligations
 
     def _forbidden_scan(self):
@@ -190,11 +190,11 @@ class Check:
                         hits.append('%s:%d: %s' % (os.path.relpath(p, LEAN), i, line.strip()))
         return hits
 
-    def _audit(self, module, theorems):
+    def _audit(self, module, theorems, extra_modules=()):
         hits = self._forbidden_scan()
         if hits:
             self.extra['forbidden_tokens'] = hits[:20]
-        src = 'import %s\n' % module + ''.join('#print axioms %s\n' % t for t in theorems)
+        src = ''.join('import %s\n' % m for m in [module] + list(extra_modules)) + ''.join('#print axioms %s\n' % t for t in theorems)
         tmp = os.path.join(BUILD, 'audit_%s_%d.lean' % (self.prop, os.getpid()))
         open(tmp, 'w').write(src)
         try:
